@@ -843,6 +843,20 @@ struct SmallSetEngine : EngineBase {
     return o;
   }
 
+  bool reloc_mode = false;
+  template <class Set>
+  void relocate_box(SetBox<E, Set> &b) {
+    if (!amc::is_trivially_relocatable<Set>::value) return;
+    MonScope m;
+    set_op("RELOCATE", stcls(*b.obj), "-", "");
+    Set *n = static_cast<Set *>(malloc(sizeof(Set)));
+    memcpy(static_cast<void *>(n), static_cast<const void *>(b.obj), sizeof(Set));
+    memset(static_cast<void *>(b.obj), 0xDD, sizeof(Set));
+    free(b.obj);
+    b.obj = n;
+    ++counters["relocations"];
+  }
+
   void run_history(uint64_t seed, long h, int nops) {
     begin_history(seed, h, 0x5E7);
     paycnt = 0;
@@ -856,6 +870,7 @@ struct SmallSetEngine : EngineBase {
       g_cur_op = i + 1;
       int a = rng.below(3);
       uint32_t r = rng.below(100);
+      { bool rel = rng.chance(1, 7), onA = rng.chance(3, 4); if (reloc_mode && rel) { if (onA) relocate_box(A[a]); else relocate_box(B); } }
       if (r < 70) {
         Op o = random_op(A[a].model->size());
         int phase = (i / 12) % 3;
@@ -909,6 +924,7 @@ int main(int argc, char **argv) {
     eng.run_space(a.from, a.to, next);
   } else {
     eng.keydom = 3 * static_cast<int>(SSInfo<SetA>::kN) + 4;
+    eng.reloc_mode = a.has("--reloc");
     long h = a.from;
     for (; h < a.to; ++h) {
       eng.run_history(a.seed, h, a.nops);
